@@ -4,13 +4,8 @@ import "encoding/json"
 
 func jsonUnmarshal(s string, v any) error { return json.Unmarshal([]byte(s), v) }
 
-func (s *Sim) throttleOnRequest(r *Req)           {}
-func (s *Sim) throttleStep()                      {}
-func (s *Sim) oracleHTTPDone(h *HTTPCall)         {}
-func (s *Sim) applyQueryEvent(op *SvcOp) bool     { return false }
-func (s *Sim) answerQuery(r *Req, outcome string) {}
-func (s *Sim) execFault(d Decision) bool          { return false }
-func (s *Sim) finishStopped()                     {}
+func (s *Sim) oracleHTTPDone(h *HTTPCall) {}
+func (s *Sim) execFault(d Decision) bool  { return false }
+func (s *Sim) finishStopped()             {}
 
-func (s *Sim) resetDelivered(rec *ResetRec) {}
-func (s *Sim) httpCallJustified(r *Req)     {}
+func (s *Sim) httpCallJustified(r *Req) {}
